@@ -272,8 +272,10 @@ def read_store(ex, st):
                 b['head'] = isinstance(n.payload, JsonDoc)
                 b['head_present'] = True
             else:
-                b['tail'] = True
+                # a zero-length tail is the leftover of a backup killed while writing it: the band was never finished
                 b['tail_empty'] = isinstance(n.payload, Raw) and len(n.payload.data) == 0
+                b['tail_present'] = True
+                b['tail'] = not b['tail_empty']
                 if isinstance(n.payload, JsonDoc):
                     tc = n.payload.value.fields[1]
                     b['tail_count'] = tc.fields[0] if tc.variant == 1 else None
